@@ -82,6 +82,7 @@ type lexState struct {
 	sizeVar map[types.Object]bool         // locals that hold the encoded width of the current rune (second result of the decoder)
 	valSet  map[types.Object]bset         // locals assigned the current byte: the bytes they may hold (stays valid after advancing)
 	valueOf map[types.Object]types.Object // value := input[start:pos]  ->  start
+	boolDef map[types.Object]ast.Expr     // isSpace := r == ' '  (valid until the position moves)
 	// facts about the token being scanned (reset when Next is entered)
 	sig        bool                                   // a byte other than a blank may have been consumed
 	nl         int                                    // line breaks consumed minus increments of the line counter
@@ -139,12 +140,12 @@ func (s *lexState) markSince(o types.Object) {
 }
 
 func newLexState() *lexState {
-	return &lexState{B: fullSet(), since: map[types.Object]bool{}, snaps: map[types.Object]snapState{}, byteVar: map[types.Object]bool{}, runeVar: map[types.Object]bool{}, sizeVar: map[types.Object]bool{}, valSet: map[types.Object]bset{}, valueOf: map[types.Object]types.Object{},
+	return &lexState{B: fullSet(), since: map[types.Object]bool{}, snaps: map[types.Object]snapState{}, byteVar: map[types.Object]bool{}, runeVar: map[types.Object]bool{}, sizeVar: map[types.Object]bool{}, valSet: map[types.Object]bset{}, valueOf: map[types.Object]types.Object{}, boolDef: map[types.Object]ast.Expr{},
 		posSnap: map[types.Object]bool{}, sigAt: map[types.Object]bool{}, lead: map[types.Object]bool{}, notAfter: map[types.Object]map[types.Object]bool{}}
 }
 
 func (s *lexState) clone() *lexState {
-	n := &lexState{ne: s.ne, atEOF: s.atEOF, B: s.B, adv: s.adv, since: map[types.Object]bool{}, snaps: map[types.Object]snapState{}, byteVar: map[types.Object]bool{}, runeVar: map[types.Object]bool{}, sizeVar: map[types.Object]bool{}, valSet: map[types.Object]bset{}, valueOf: map[types.Object]types.Object{},
+	n := &lexState{ne: s.ne, atEOF: s.atEOF, B: s.B, adv: s.adv, since: map[types.Object]bool{}, snaps: map[types.Object]snapState{}, byteVar: map[types.Object]bool{}, runeVar: map[types.Object]bool{}, sizeVar: map[types.Object]bool{}, valSet: map[types.Object]bset{}, valueOf: map[types.Object]types.Object{}, boolDef: map[types.Object]ast.Expr{},
 		sig: s.sig, nl: s.nl, nlUnknown: s.nlUnknown, sawNL: s.sawNL, atStartSet: s.atStartSet, flagCleared: s.flagCleared, posSnap: map[types.Object]bool{}, sigAt: map[types.Object]bool{}, lead: map[types.Object]bool{},
 		notAfter: map[types.Object]map[types.Object]bool{}, epoch: append([]types.Object(nil), s.epoch...)}
 	for k, v := range s.notAfter {
@@ -183,6 +184,9 @@ func (s *lexState) clone() *lexState {
 	}
 	for k, v := range s.valueOf {
 		n.valueOf[k] = v
+	}
+	for k, v := range s.boolDef {
+		n.boolDef[k] = v
 	}
 	return n
 }
@@ -277,6 +281,11 @@ func joinStates(a, b *lexState) *lexState {
 			delete(n.valueOf, k)
 		}
 	}
+	for k, v := range n.boolDef {
+		if b.boolDef[k] != v {
+			delete(n.boolDef, k)
+		}
+	}
 	for k, v := range n.snaps {
 		if bv, ok := b.snaps[k]; !ok || bv != v {
 			// keep the weaker snapshot
@@ -334,6 +343,8 @@ const (
 )
 
 type lexInterp struct {
+	quiet    int  // > 0: a speculative interpretation; constructs outside the vocabulary only set quietHit
+	quietHit bool
 	nStop, nFirst int
 	c       *Ctx
 	pk      *packagesPackage
@@ -623,6 +634,10 @@ func (li *lexInterp) findRoles(recvName string) {
 func (li *lexInterp) fnName(fr *lexFrame) string { return li.c.P.declName(fr.fd) }
 
 func (li *lexInterp) undecided(fr *lexFrame, n ast.Node, what string) {
+	if li.quiet > 0 {
+		li.quietHit = true
+		return
+	}
 	k := fmt.Sprintf("%s|%d", what, n.Pos())
 	if li.reported[k] {
 		return
@@ -1028,6 +1043,20 @@ func (li *lexInterp) cond(e ast.Expr, in []*lexState, fr *lexFrame) (t, f []*lex
 		}
 	case *ast.CallExpr:
 		return li.condCall(x, in, fr)
+	case *ast.Ident:
+		if o := li.info.Uses[x]; o != nil && len(in) > 0 {
+			if def, ok := in0(in).boolDef[o]; ok {
+				same := true
+				for _, st := range in {
+					if st.boolDef[o] != def {
+						same = false
+					}
+				}
+				if same {
+					return li.cond(def, in, fr)
+				}
+			}
+		}
 	}
 	// unknown boolean (locals such as hasDigits, followsAmount, l.atStart ...): both outcomes, no refinement
 	if li.touchesLexerPos(e) {
@@ -1369,6 +1398,34 @@ func (li *lexInterp) condCall(call *ast.CallExpr, in []*lexState, fr *lexFrame) 
 				}
 			}
 			li.undecided(fr, call, "boolean lexer helper that modifies the lexer state")
+		} else if len(in) > 0 && len(li.boolCaps) < 3 {
+			// a pure helper that is handed the current byte or rune (`l.accountEndsAt(l.pos, r)`): interpreted in
+			// place like a predicate, quietly - if anything in it is outside the vocabulary the call is an unknown
+			// boolean as before
+			fd := li.methods[m]
+			handed := false
+			for _, a := range call.Args {
+				if li.isCurrentByteExpr(a, in[0]) || li.isCurrentRuneExpr(a, in[0]) {
+					handed = true
+				}
+			}
+			isBool := fd.Type.Results != nil && len(fd.Type.Results.List) == 1 && types.TypeString(li.info.TypeOf(fd.Type.Results.List[0].Type), nil) == "bool"
+			if handed && isBool {
+				cap := &lexBoolCap{fd: fd}
+				li.boolCaps = append(li.boolCaps, cap)
+				li.quiet++
+				hitBefore := li.quietHit
+				li.quietHit = false
+				li.inline(fd, cloneAll(in), fr, call)
+				hit := li.quietHit
+				li.quietHit = hitBefore
+				li.quiet--
+				li.boolCaps = li.boolCaps[:len(li.boolCaps)-1]
+				li.curFrame = fr
+				if !hit && !cap.bad && len(cap.t)+len(cap.f) > 0 {
+					return normalize(cap.t), normalize(cap.f)
+				}
+			}
 		}
 	}
 	return cloneAll(in), cloneAll(in)
@@ -1718,6 +1775,7 @@ func (li *lexInterp) effectiveAdvance(n ast.Node, in []*lexState, fr *lexFrame) 
 		n2.byteVar = map[types.Object]bool{}
 		n2.runeVar = map[types.Object]bool{}
 		n2.sizeVar = map[types.Object]bool{}
+		n2.boolDef = map[types.Object]ast.Expr{}
 		out = append(out, n2)
 	}
 	return normalize(out)
@@ -1789,6 +1847,7 @@ func (li *lexInterp) assign(s *ast.AssignStmt, in []*lexState, fr *lexFrame) []*
 			for i := range s.Lhs {
 				if o := obj(i); o != nil {
 					delete(st.byteVar, o)
+					delete(st.boolDef, o)
 					delete(st.runeVar, o)
 					delete(st.sizeVar, o)
 					delete(st.valSet, o)
@@ -1798,6 +1857,16 @@ func (li *lexInterp) assign(s *ast.AssignStmt, in []*lexState, fr *lexFrame) []*
 					delete(st.posSnap, o)
 					delete(st.sigAt, o)
 					delete(st.lead, o)
+				}
+			}
+		}
+		// a condition hoisted into a local: isSpace := r == ' '
+		if len(s.Lhs) == 1 {
+			if o := obj(0); o != nil {
+				if bt, ok := li.info.TypeOf(rhs).Underlying().(*types.Basic); ok && bt.Info()&types.IsBoolean != 0 && li.pureCond(rhs) {
+					for _, st := range out {
+						st.boolDef[o] = rhs
+					}
 				}
 			}
 		}
@@ -1927,7 +1996,19 @@ func (li *lexInterp) assign(s *ast.AssignStmt, in []*lexState, fr *lexFrame) []*
 					if fd.Type.Results != nil && len(fd.Type.Results.List) == 1 && typeHasSuffix(li.info.TypeOf(fd.Type.Results.List[0].Type), "parser.Token") {
 						li.undecided(fr, s, "token produced by a scanner and stored instead of returned")
 					} else {
-						return li.inline(fd, out, fr, call)
+						res := li.inline(fd, out, fr, call)
+						// value := l.scanUntil(stop), where the scanner returns input[start:pos] for a snapshot it took
+						// itself: the value is tied to that snapshot
+						if o := obj(0); o != nil && len(s.Lhs) == 1 {
+							if so := li.returnedSliceStart(fd); so != nil {
+								for _, st := range res {
+									if _, isSnap := st.snaps[so]; isSnap {
+										st.valueOf[o] = so
+									}
+								}
+							}
+						}
+						return res
 					}
 				}
 			}
@@ -2013,6 +2094,7 @@ func (li *lexInterp) assignLexerField(lhs ast.Expr, rhs ast.Expr, tok token.Toke
 						n2.byteVar = map[types.Object]bool{}
 						n2.runeVar = map[types.Object]bool{}
 						n2.sizeVar = map[types.Object]bool{}
+						n2.boolDef = map[types.Object]ast.Expr{}
 						out = append(out, n2)
 					}
 					return normalize(out)
@@ -2570,4 +2652,64 @@ func (li *lexInterp) checkStop(s *ast.ReturnStmt, st *lexState, fr *lexFrame, tp
 			}
 		}
 	}
+}
+
+// pureCond: the boolean expression has no effect on the lexer (comparisons, pure look-ahead helpers, predicates).
+func (li *lexInterp) pureCond(e ast.Expr) bool {
+	pure := true
+	ast.Inspect(e, func(n ast.Node) bool {
+		if call, ok := n.(*ast.CallExpr); ok {
+			if m, ok := li.lexerMethodCall(call); ok && !li.isPure(li.methods[m], 0) {
+				pure = false
+			}
+		}
+		return true
+	})
+	return pure
+}
+
+// returnedSliceStart: every return of the method is `l.input[start:l.pos]` (possibly trimmed) for one local `start`
+// of the method; that local.
+func (li *lexInterp) returnedSliceStart(fd *ast.FuncDecl) types.Object {
+	var so types.Object
+	ok := true
+	n := 0
+	ast.Inspect(fd.Body, func(y ast.Node) bool {
+		if _, isLit := y.(*ast.FuncLit); isLit {
+			return false
+		}
+		r, isRet := y.(*ast.ReturnStmt)
+		if !isRet {
+			return true
+		}
+		n++
+		if len(r.Results) != 1 {
+			ok = false
+			return true
+		}
+		v := ast.Unparen(r.Results[0])
+		if c2, isCall := v.(*ast.CallExpr); isCall && len(c2.Args) >= 1 && strings.HasPrefix(qualName(calleeOf(li.info, c2)), "strings.Trim") {
+			v = ast.Unparen(c2.Args[0])
+		}
+		sl, isSl := v.(*ast.SliceExpr)
+		if !isSl || !li.isLexerField(sl.X, "input") || sl.Low == nil || !li.isLexerField(sl.High, "pos") {
+			ok = false
+			return true
+		}
+		low := ast.Unparen(sl.Low)
+		if se, isSel := low.(*ast.SelectorExpr); isSel && se.Sel.Name == "Offset" {
+			low = ast.Unparen(se.X)
+		}
+		o := li.info.Uses[identOf(low)]
+		if o == nil || (so != nil && so != o) {
+			ok = false
+			return true
+		}
+		so = o
+		return true
+	})
+	if !ok || n == 0 {
+		return nil
+	}
+	return so
 }
